@@ -1,4 +1,5 @@
 import DateutilVerif.Properties.C05
+import DateutilVerif.Properties.TzGen   -- translator tie (wt-iso): obligations about the re-translated lookup functions
 #print axioms C05.mem_pre_iff
 #print axioms C05.pre_card_le_two
 #print axioms C05.ambiguous_iff
@@ -12,3 +13,13 @@ import DateutilVerif.Properties.C05
 #print axioms C05.exists_of_preimage
 #print axioms C05.preimage_of_exists
 #print axioms C05.two_pre_iff
+-- translator tie (wt-iso): Gen.* (Generated/TzKernels.lean) = model, and `_gen` twins
+#print axioms C05.gen_eq_model_is_ambiguous
+#print axioms C05.gen_eq_model_is_ambiguous_idx
+#print axioms C05.gen_eq_model_offset_before
+#print axioms C05.gen_eq_model_range_is_ambiguous
+#print axioms C05.gen_eq_model_range_isdst
+#print axioms C05.gen_eq_model_naive_isdst
+#print axioms C05.ambiguous_iff_gen
+#print axioms C05.gen_eq_model_tzinfo_is_ambiguous
+#print axioms C05.gen_eq_model_tzinfo_fold_status
